@@ -236,9 +236,9 @@ func coqPath(p string) string { return lib.StrList(segs(p)) }
 func coqOp(o op) string {
 	switch o.Kind {
 	case kFile:
-		return lib.App("AddFile", coqPath(o.dir()), lib.App("FN", lib.Str(o.base()), lib.Str(fmt.Sprintf("%s/%d", o.Hash, o.Size)), lib.Bool(o.Exec)))
+		return lib.App("AddFile", coqPath(o.dir()), lib.App("FN", lib.Str(o.base()), lib.Str(short(fmt.Sprintf("%s/%d", o.Hash, o.Size))), lib.Bool(o.Exec)))
 	case kDir:
-		return lib.App("AddDir", coqPath(o.dir()), lib.Str(o.base()), lib.Str(fmt.Sprintf("%s/%d", o.Hash, o.Size)))
+		return lib.App("AddDir", coqPath(o.dir()), lib.Str(o.base()), lib.Str(short(fmt.Sprintf("%s/%d", o.Hash, o.Size))))
 	}
 	return lib.App("AddSym", coqPath(o.dir()), lib.App("SN", lib.Str(o.base()), lib.Str(o.Target)))
 }
